@@ -17,7 +17,7 @@ INV = {
     'C10': ['Inv_C10_Quiescent', 'Inv_C10_SameOutcome', 'Inv_C10_DigestMatchesStore', 'Inv_C19_NoPanic'],
     'C11': ['Inv_C11_PhaseAllOrNothing', 'Inv_C11_Scope', 'Inv_C11_Reported', 'Inv_C11_NoWriteIfViolating', 'Inv_C11_ViolationReported'],
     'C14': ['Inv_C14_SameAsInline', 'Inv_C14_GC', 'Inv_C14_GCInstant', 'Inv_C14_SliceContent', 'Conf_DeployPlan'],
-    'C15': ['Inv_C15_SameAsLocal', 'Inv_C15_PhaseObjectFaithful', 'Inv_C15_PhaseObjectLifetime', 'Inv_C15_PausePropagation', 'Inv_C09_PhasePauseFollows', 'Inv_C09_PhasePauseBehindFailure', 'Conf_RemotePhase'],
+    'C15': ['Inv_C15_SameAsLocal', 'Inv_C15_PhaseObjectFaithful', 'Inv_C15_PhaseObjectLifetime', 'Inv_C15_PausePropagation', 'Inv_C15_RemotePhaseRefsCurrent', 'Inv_C09_PhasePauseFollows', 'Inv_C09_PhasePauseBehindFailure', 'Conf_RemotePhase'],
     'C12': ['Inv_C12_InformerIffOwned', 'Inv_C12_HandlersAttached', 'Inv_C12_ReadUnwatchedFails', 'Inv_C12_MatchesReferenceModel'],
     'C20': ['Inv_C20_OnePullPerImage', 'Inv_C20_ExactlyOneResponse', 'Inv_C20_NoPhantomPull', 'Inv_C20_Private', 'Inv_C20_NoLostWakeup'],
     'C13': ['Inv_C13_Deterministic', 'Inv_C13_Conservation', 'Inv_C13_LabelsAndAnnotations', 'Inv_C13_FuncAllowList'],
@@ -467,9 +467,9 @@ CHECKS = {
                 invariants=INV['C15'] + INV['C01'] + INV['C02'] + INV['C03'] + INV['C04'] + INV['C05'] + INV['C06'] + ['Inv_C09_NoWritesWhilePaused'],
                 jobs=lambda tier, seed: [
                     dict(name='differential-c15', shards=5 if tier == 'quick' else 14, driver=['differential', '-profile', 'c15']),
-                    rnd('delegated-atomic', 'delegated-mixed,delegated-handover,local-to-delegated,rolledout-delegated,paused-start', 'all', 'atomic',
+                    rnd('delegated-atomic', 'delegated-mixed,delegated-handover,delegated-handover-recreated,local-to-delegated,rolledout-delegated,paused-start', 'all', 'atomic',
                         80 if tier == 'quick' else 2000, 90, seed, 4 if tier == 'quick' else 14),
-                    rnd('delegated-api', 'delegated-mixed,delegated-handover,local-to-delegated,rolledout-delegated,paused-start', 'all', 'api',
+                    rnd('delegated-api', 'delegated-mixed,delegated-handover,delegated-handover-recreated,local-to-delegated,rolledout-delegated,paused-start', 'all', 'api',
                         80 if tier == 'quick' else 2000, 160, seed, 4 if tier == 'quick' else 14),
                     dict(name='adopt-table-annotation', shards=4 if tier == 'quick' else 14,
                          driver=['adopt-table', '-n', '1500' if tier == 'quick' else '20000', '-seed', str(seed + 11)], invariants=INV['C01'])]),
